@@ -196,6 +196,7 @@ def _c06():
         ("R-RECURSE", "client-driven recursion (RESP parser) carries a bounded depth", rules_panic.rule_recurse),
         ("R-DEADLINE-BOUND", "stored deadlines are at most a constant away from now: every Instant + Duration in the modules that own deadlines bounds the Duration by a constant first (the dump writers and TTL replies rely on it)", rules_panic.rule_deadline_bound),
         ("R-HANG", "the command thread never sleeps for a client-controlled time; scripts run under an execution bound", rules_panic.make_taint_rule({"client", "wire"}, ("sleep",), "client-controlled sleeps")),
+        ("R-LOOPBOUND", "no loop on the command thread runs for a client-controlled number of iterations without an upper bound (a dominating comparison, min/clamp with what is present)", rules_panic.make_taint_rule({"client", "wire"}, ("loop",), "client-controlled loop bounds")),
         ("R-HANG-LUA", "before the chunk is run, eval installs an instruction hook whose callback can return Err, decided by a clock or counter", rules_panic.rule_hang),
         ("R-LOCK-L1", "no lock is re-acquired (directly or through a call) while a guard of the same lock is held", rules_panic.rule_lock_l1),
         ("R-ERRPROP", "a handler error never kills the connection (C05)", rules_conn.rule_errprop),
